@@ -30,6 +30,8 @@ define(`MOVQ',`movd')
 
 ASM_START()
 PROLOGUE(mpn_rsh_divrem_hensel_qr_1_2)
+C the count is an int argument: the upper half of its register is undefined
+	mov	%r8d, %r8d
 C	// 3limb minimum for the mo
 mov %r9,%r10
 mov $2,%r9
